@@ -7,9 +7,7 @@
    (validated against the RFC vectors and crypto/* by the checks); the theorem does not depend on which
    functions they are, only on both sides applying the same function to the same bytes. *)
 From BMC Require Import Base Prim Layers Layers2 Serialize Packet Conn Hmac Handshake HandshakeProofs ChannelFacts SpecBmc KeyAgreement.
-From BMC Require Import RequestProofs SessionUse.
-From Coq Require Import String.
-Notation length := List.length (only parsing).
+From BMC Require Import RequestProofs SessionUse Aes ReplyAccepted.
 From BMCProps Require Import TieCrypto.
 
 (* for every supported suite (authentication SHA1/MD5/SHA256 x integrity SHA1-96/MD5-128/SHA256-128 x AES-CBC-128,
@@ -46,8 +44,7 @@ Proof. exact key_agreement. Qed.
 (* ... and every command subsequently sent on that session (any sequence number, IV, command, LUN, body that fits
    the wrapper's length field) passes the BMC's integrity check and decryption and is read by the BMC as exactly
    the command the caller asked for.  No premise about AES or the hashes: AES-128 invertibility and the byte range
-   / length of HMAC outputs are proved (AesInverse.v, HashBytes.v).  That the reply is returned to the caller is
-   C04/C10/C11 (`session_accept_sound`, `session_verdict_final`). *)
+   / length of HMAC outputs are proved (AesInverse.v, HashBytes.v).  That the reply is then returned: C01_reply_is_returned below. *)
 Theorem C01_commands_accepted :
   forall (o : session_opts) (s : suite) (random rc : bytes) (new_id : N) (cfg : Bmc.config)
          (supported : N -> N -> N -> bool) (pwb : bytes),
@@ -72,6 +69,35 @@ Theorem C01_commands_accepted :
       session_command_packet sess seq iv op lun body = Ok pkt ->
       Bmc.accept act pkt = Some (iv, seq, expected_lanreq op lun body).
 Proof. exact established_commands_accepted. Qed.
+
+(* ... and its response is returned to the caller: a reply the BMC builds as IPMI v2.0 prescribes with the session's
+   keys ([reply_packet]: response message with both checksums | AES-128-CBC | wrapper addressed to the console's
+   session ID, encrypted + authenticated, AuthCode by the negotiated algorithm) completes the command at its first
+   delivery with exactly the BMC's completion code and data, after exactly one transmission; a temporary code
+   (C0h / C3h) is reported as temporary instead (and retried, C10).  Every sign function, every sequence number. *)
+Theorem C01_reply_is_returned : forall (s : session) o lun body seq0 ivs rest bseq biv code data pkt key,
+  s_enc s = aes128_encrypt_block key -> s_dec s = aes128_decrypt_block key -> length key = 16%nat -> Forall (fun b => b < 256) key ->
+  s_local_id s < 4294967296 -> length biv = 16%nat -> Forall (fun b => b < 256) biv -> Forall (fun b => b < 256) data ->
+  op_fn o < 64 -> op_fn o mod 2 = 0 -> op_cmd o < 256 -> lun < 4 -> code < 256 -> op_body o < 256 ->
+  (op_fn o <> 0x2c -> op_body o = 0) -> op_ent o < 16777216 -> (op_fn o <> 0x2e -> op_ent o = 0) ->
+  response_message_length o data < 65504 -> code <> 0xc0 -> code <> 0xc3 ->
+  reply_packet s bseq biv o lun code data = Ok pkt ->
+  let r := session_loop s o lun body seq0 ivs (Some pkt :: rest) [] [] in
+  exists m req,
+    lr_outcome r = OFinal m /\ m_code m = code /\ m_payload m = data /\ response_matches o m = true /\
+    session_command_packet s (u32 (seq0 + 1)) (hd (zeros 16) ivs) o lun body = Ok req /\
+    lr_sent r = [req] /\ length (lr_sent r) = 1%nat /\ lr_codes r = [code] /\ lr_seq r = u32 (seq0 + 1) /\
+    send_result r = Some (code, data).
+Proof. exact first_genuine_reply_completes. Qed.
+Theorem C01_reply_verdict : forall (s : session) seq iv o lun code data pkt key,
+  s_enc s = aes128_encrypt_block key -> s_dec s = aes128_decrypt_block key -> length key = 16%nat -> Forall (fun b => b < 256) key ->
+  s_local_id s < 4294967296 -> length iv = 16%nat -> Forall (fun b => b < 256) iv -> Forall (fun b => b < 256) data ->
+  op_fn o < 64 -> op_fn o mod 2 = 0 -> op_cmd o < 256 -> lun < 4 -> code < 256 -> op_body o < 256 ->
+  (op_fn o <> 0x2c -> op_body o = 0) -> op_ent o < 16777216 -> (op_fn o <> 0x2e -> op_ent o = 0) ->
+  reply_packet s seq iv o lun code data = Ok pkt -> N.of_nat (length pkt) <= 65507 ->
+  session_verdict s o pkt = (if is_temporary code then VTemporary code else VFinal (reply_decoded o lun code data)) /\
+  m_code (reply_decoded o lun code data) = code /\ m_payload (reply_decoded o lun code data) = data.
+Proof. exact genuine_reply_is_final_udp. Qed.
 
 (* suites with None for integrity or confidentiality are refused with an error, never half-supported *)
 Theorem C01_none_is_refused : forall o s random sc1 sc2 sc3 sent e,
@@ -103,11 +129,11 @@ Proof. exact hmac_zero_pad. Qed.
 
 Theorem C01_tables_tie :
   (forall n, k_const n = repeat (u8 n) (N.to_nat G.kConstantLength)) /\
-  (G.auth_table = [([1], "sha1.New 12 nil"); ([3], "sha256.New 16 nil"); ([2], "md5.New nil"); ([], "nil fmt.Errorf")]%string
+  (G.auth_table = [([1], (1, [12], false)); ([2], (2, [], false)); ([3], (3, [16], false)); ([], (0, [], true))]
    /\ auth_params 1 = Some (1, 12%nat) /\ auth_params 3 = Some (3, 16%nat) /\ auth_params 2 = Some (2, 0%nat)) /\
-  (G.integrity_table = [([0], "nil fmt.Errorf"); ([1], "hmac.New sha1.New _.K 1 12 nil"); ([2], "hmac.New md5.New _.K 1 nil");
-                        ([4], "hmac.New sha256.New _.K 1 16 nil"); ([], "nil fmt.Errorf")]%string
+  (G.integrity_table = [([0], (0, [], true)); ([1], (1, [1; 12], false)); ([2], (2, [1], false)); ([4], (3, [1; 16], false));
+                        ([], (0, [], true))]
    /\ integrity_params 1 = Some (Some (1, 12%nat)) /\ integrity_params 2 = Some (Some (2, 16%nat))
    /\ integrity_params 4 = Some (Some (3, 16%nat))) /\
-  G.confidentiality_table = [([0], "nil fmt.Errorf"); ([1], "16 _.K 2 ipmi.NewAES128CBC"); ([], "nil fmt.Errorf")]%string.
+  G.confidentiality_table = [([0], (0, [], true)); ([1], (0, [16; 2], false)); ([], (0, [], true))].
 Proof. exact (conj tie_k_constant (conj tie_auth_table (conj tie_integrity_table tie_confidentiality_table))). Qed.
